@@ -696,3 +696,29 @@ def gen_repeat(seed, tier):
             render_ops(rng, b, nwr, 1)
         out.append(b.ops)
     return out
+
+
+def gen_faults(seed, tier):
+    """C15: random tables, every renderer (wrapper methods, package functions, auto), full fault sweep."""
+    rng = random.Random(seed * 122949829 + 15)
+    n = 150 if tier == "quick" else 4000
+    out = []
+    for i in range(n):
+        b = GridBuilder(rng)
+        hdr_p = 0.9
+        build_table(rng, b, rng.randint(1, 4), rng.randint(0, 5), lambda: rnd_text_item(rng, sized=0.1), hdr_p=hdr_p)
+        kind = rng.choice(WRAP_KINDS)
+        r = rng.random()
+        if r < 0.6:
+            b.ops.append({"op": "wrap", "kind": kind, "over": {"t": 1}})
+            if kind == "text" and rng.random() < 0.6:
+                b.ops.append(rnd_decor_op(rng, 1))
+            if kind == "html" and rng.random() < 0.6:
+                b.ops.append({"op": "htmlopts", "w": 1, "id": "i", "class": "c", "caption": "cap", "gen": 1, "genvals": ["r0", "r1"]})
+            b.ops.append({"op": "faultsweep", "w": 1})
+        elif r < 0.8:
+            b.ops.append({"op": "faultsweep", "pkg": kind, "t": 1})
+        else:
+            b.ops.append({"op": "faultsweep", "auto": rng.choice(AUTO_STYLES), "t": 1})
+        out.append(b.ops)
+    return out
